@@ -584,6 +584,7 @@ func checkC03(e *Engine, r *Report) {
 		for i := 0; i < sdbS.NumFields(); i++ {
 			names = append(names, sdbS.Field(i).Name())
 		}
+		capReg, revReg := e.privateRegion(capFn), e.privateRegion(revFn)
 		for i := 0; i < sdbS.NumFields(); i++ {
 			fv := sdbS.Field(i)
 			name := fv.Name()
@@ -606,7 +607,7 @@ func checkC03(e *Engine, r *Report) {
 			ref := isRefType(fv.Type())
 			// capture
 			capOK, capWhy := false, "no store to the snapshot field in newStateDbSnapshotFromStateDb"
-			allInstrs(capFn, false, func(_ *ssa.Function, _ *ssa.BasicBlock, in ssa.Instruction) {
+			capReg.AllInstrs(func(in ssa.Instruction) {
 				st, ok := in.(*ssa.Store)
 				if !ok || fieldVar(st.Addr) != sf {
 					return
@@ -622,9 +623,13 @@ func checkC03(e *Engine, r *Report) {
 			r.Check(capOK, key+" › captured by Snapshot", e.Pos(capFn.Pos()), capWhy, capWhy)
 			// restore
 			resOK, resWhy := false, "RevertToSnapshot does not assign this field"
-			allInstrs(revFn, false, func(_ *ssa.Function, _ *ssa.BasicBlock, in ssa.Instruction) {
+			revReg.AllInstrs(func(in ssa.Instruction) {
 				st, ok := in.(*ssa.Store)
 				if !ok || fieldVar(st.Addr) != fv {
+					return
+				}
+				// the helper's receiver is the StateDB being reverted
+				if fa, isFA := st.Addr.(*ssa.FieldAddr); isFA && in.Parent() != revFn && revReg.Resolve(fa.X) != ssa.Value(revFn.Params[0]) {
 					return
 				}
 				resOK, resWhy = viaCopy(st.Val, func(v ssa.Value) bool {
